@@ -11,6 +11,8 @@ structure St where
   vals : Std.HashMap String Val := {}
   /-- tid → name of a built-in inspector ("strings-s", "strings-b", "samap", "static") -/
   builtins : Std.HashMap String String := {}
+  /-- map[string]any trees (`JV` records), kept as tokens and parsed where they are used -/
+  jtoks : Std.HashMap String (List String) := {}
   cfg : GenCfg := {}
   lib : LibCfg := {}
   /-- "" = the property's own acceptance; "nopanic" = C02: an outcome is accepted iff it is not a panic -/
